@@ -734,6 +734,29 @@ impl<D: StorageData> Storage<D> {
     }
 }
 
+#[cfg(agdb_verif)]
+impl<D: StorageData> Storage<D> {
+    pub fn verif_records(&self) -> Vec<(u64, u64, u64)> {
+        self.records.verif_records()
+    }
+
+    pub fn verif_free_regions(&self) -> Vec<(u64, u64)> {
+        self.records.verif_free_regions()
+    }
+
+    pub fn verif_transactions(&self) -> u64 {
+        self.transactions
+    }
+
+    pub fn verif_data(&self) -> &D {
+        &self.data
+    }
+
+    pub fn verif_data_mut(&mut self) -> &mut D {
+        &mut self.data
+    }
+}
+
 #[cfg(test)]
 mod tests {
     use super::*;
